@@ -213,7 +213,12 @@ func (x *Engine) step(fr *Frame, st *State, ins ssa.Instruction, in map[*ssa.Bas
 		x.mapStore(st, m, k, v)
 	case *ssa.Range:
 		v := x.val(fr, i.X)
-		fr.vals[i] = Val{T: v.T, Typ: i.X.Type()}
+		rv := Val{T: v.T, Typ: i.X.Type()}
+		if mt, ok := i.X.Type().Underlying().(*types.Map); ok {
+			rv.Iter = x.iterKey(fr, i)
+			st.h[rv.Iter] = fmt.Sprintf("((as const (Array %s Bool)) false)", x.sortOf(mt.Key()))
+		}
+		fr.vals[i] = rv
 	case *ssa.Next:
 		fr.vals[i] = x.next(fr, st, i)
 	case *ssa.Call:
@@ -704,12 +709,23 @@ func (x *Engine) next(fr *Frame, st *State, i *ssa.Next) Val {
 	mt := it.Typ.Underlying().(*types.Map)
 	k := x.freshVal("nk", mt.Key(), st)
 	m := Val{T: it.T, Typ: it.Typ}
-	x.assume(st, fmt.Sprintf("(=> %s %s)", ok.T, x.mapHas(st, m, k)))
-	// an empty map yields no element
-	x.assume(st, fmt.Sprintf("(=> (= (select %s %s) 0) (not %s))", x.get(st, "MapLen"), m.T, ok.T))
+	seen := x.get(st, it.Iter)
+	// an arbitrary not yet visited member of the domain; none left exactly when every member was visited
+	x.assume(st, fmt.Sprintf("(=> %s (and %s (not (select %s %s))))", ok.T, x.mapHas(st, m, k), seen, k.T))
+	ks := x.sortOf(mt.Key())
+	dom, _ := x.mapKeys(mt)
+	x.assume(st, fmt.Sprintf("(=> (not %s) (forall ((kq %s)) (! (=> (select (select %s %s) kq) (select %s kq)) :pattern ((select %s kq)))))", ok.T, ks, x.get(st, dom), m.T, seen, seen))
+	x.set(st, it.Iter, fmt.Sprintf("(ite %s (store %s %s true) %s)", ok.T, seen, k.T, seen))
 	v := x.mapLookup(st, m, k)
 	v.T = x.name("nv", x.sortOf(v.Typ), v.T)
 	x.assume(st, x.wf(v.Typ, v.T, st))
-	x.abstracted("map iteration order arbitrary, visited set not tracked")
+	x.abstracted("map iteration: arbitrary order, each key visited exactly once")
 	return Val{Typ: i.Type(), Tup: []Val{ok, k, v}}
+}
+
+func (x *Engine) iterKey(fr *Frame, r *ssa.Range) string {
+	mt := r.X.Type().Underlying().(*types.Map)
+	key := fmt.Sprintf("Iter:%d:%s", fr.id, r.Name())
+	x.regComp(key, fmt.Sprintf("(Array %s Bool)", x.sortOf(mt.Key())))
+	return key
 }
